@@ -173,20 +173,24 @@ def _c04_namespace(res, case, lab, o):
     else:
         ns_dict = {path[-1]: lab.Option(path[-1], **kw)}
     explicit = (len(canon_nodes(case)) + len(repr(o))) % 2 == 0
-    for depth, seg in enumerate(reversed(path[:-1])):
-        cls = type(seg, (), ns_dict)
-        # innermost section alternately as an implicit sub-namespace (a plain nested class) and as an
-        # explicit namespace object (the _inherit path)
-        ns_dict = {seg: lab.Option.namespace(cls) if (explicit and depth == 0) else cls}
+    # one or two further levels around the option's own path (NS.[N2.]<path>): with N2 the leaf sits three or
+    # four namespace levels deep; every level alternately an implicit sub-namespace (a plain nested class) and
+    # an explicit namespace object (the _inherit path, nested explicit namespaces included)
+    extra = ["N2"] if (len(canon_nodes(case)) + len(repr(o))) % 3 == 0 else []
+    full = extra + list(path)
     try:
+        for depth, seg in enumerate(reversed(full[:-1])):
+            cls = type(seg, (), ns_dict)
+            ns_dict = {seg: lab.Option.namespace(cls) if (explicit and (depth == 0 or extra)) else cls}
         NS = lab.Option.namespace(type("NS", (), ns_dict))
         member = NS
-        for seg in path:
+        for seg in full:
             member = getattr(member, seg)
     except Exception as e:  # noqa
         res.bad("namespace-definition", "defining the namespace raised %s: %s" % (type(e).__name__, e))
         return
-    o2 = {"NS": copy.deepcopy(o)}
+    o2 = {"NS": {"N2": copy.deepcopy(o)} if extra else copy.deepcopy(o)}
+    path = full
     got = observe.call(lambda: member.evaluate(copy.deepcopy(o2)), lab)
     exp = case["a"]["eval"]
     if exp["ok"]:
@@ -195,7 +199,7 @@ def _c04_namespace(res, case, lab, o):
                 ".".join(path), observe.describe(got), show(dec(exp["v"]))))
     else:
         ef = exp_failure(exp)
-        ef["keys"] = {"NS." + k for k in ef["keys"]}
+        ef["keys"] = {"NS." + ("N2." if extra else "") + k for k in ef["keys"]}
         if not observe.same_failure(got, ef):
             res.bad("namespace-member", "namespace member NS.%s gives %s, the equivalent Option fails with %s" % (
                 ".".join(path), observe.describe(got), exp["cls"]))
